@@ -535,6 +535,8 @@ example : RcNorm Rc.reset ∧ ProbInv 1024 ∧ PosInv (DictPos.init 0 0) :=
   ⟨⟨by decide, by decide⟩, by decide, posInv_init 0 0⟩
 
 /-! ## CONTAINER LEVEL (Stream / Block / Index / filter chains with delta and BCJ)
-  is a separate part of C03: see Props/C03b.lean (or the section another builder appends below this line). -/
+  is a separate part of C03: Props/C03Container.lean (`block_sizes_enforced`, `index_matches_blocks`, `xz_decode_sound`,
+  `xz_decode_functional`, `xz_decode_complete_partial`; audited by the same check). The filter-chain rule of the format
+  (`filters_1_to_4`) is stated above in section 8. -/
 
 end XzVerif.C03
